@@ -163,6 +163,25 @@ def _sig_optional(sig: Any, n: int) -> list[bool]:
     return (opt + [False] * n)[:n]
 
 
+def _attr_facts(cl: Any, attr: str) -> dict:
+    """Facts about a native attribute read straight from the ClassIR tables (not through the helper methods that
+    the transforms call): `attr_always_initialized` (attrdefined analysis), `attr_deletable` (`__deletable__`
+    anywhere in the MRO), `attr_has_default` (class-body default), `attr_final` (`final_attributes`: no setter), `attr_rc` (the attribute type is refcounted)."""
+    try:
+        mro = list(cl.mro) or [cl]
+    except Exception:
+        mro = [cl]
+    try:
+        rc = bool(cl.attr_type(attr).is_refcounted)
+    except Exception:
+        rc = True
+    return {"attr_always_initialized": attr in getattr(cl, "_always_initialized_attrs", ()),
+            "attr_deletable": any(attr in getattr(ir, "deletable", ()) for ir in mro),
+            "attr_has_default": any(attr in getattr(ir, "attrs_with_defaults", ()) for ir in mro),
+            "attr_final": any(attr in getattr(ir, "final_attributes", ()) for ir in mro),
+            "attr_rc": rc}
+
+
 def export_op(op: Any, num: _Numbering, labels: dict[Any, int]) -> dict:
     from mypyc.ir import ops as O
     cls = type(op).__name__
@@ -215,9 +234,11 @@ def export_op(op: Any, num: _Numbering, labels: dict[Any, int]) -> dict:
     elif isinstance(op, O.GetAttr):
         d.update(attr=op.attr, obj=num.get(op.obj), class_name=op.class_type.class_ir.fullname,
                  allow_error_value=bool(getattr(op, "allow_error_value", False)))
+        d.update(_attr_facts(op.class_type.class_ir, op.attr))
     elif isinstance(op, O.SetAttr):
         d.update(attr=op.attr, obj=num.get(op.obj), src=num.get(op.src), class_name=op.class_type.class_ir.fullname,
                  is_init=bool(op.is_init))
+        d.update(_attr_facts(op.class_type.class_ir, op.attr))
     elif isinstance(op, (O.IntOp, O.ComparisonOp, O.FloatOp, O.FloatComparisonOp)):
         d["opcode"] = op.op_str[op.op] if hasattr(op, "op_str") else op.op
         d["opnum"] = op.op
